@@ -238,6 +238,24 @@ Theorem C19_slot_dict_roundtrip :
 Proof. exact slot_ctor_as_dict. Qed.
 Print Assumptions C19_slot_dict_roundtrip.
 
+(* the client reads the placement a task was given (Task._update stores task['slots'],
+   Task.slots / Task.as_dict read it).  For EVERY list of slots a writer can leave -- new
+   format, complete old format, or the raptor worker's partial old format with nothing but
+   cores and gpus -- the read does not fail and names the same nodes, cores, GPUs, lfs and mem
+   (keys a writer left out mean the defaults); a second read gives the same. *)
+Theorem C19_client_slots_keep_placement :
+  forall l : list pslot,
+    (exists r, client_slots (CSlots l) = inr r /\ pplacement r = pplacement l)
+    /\ (forall r, client_slots (CSlots l) = inr r -> client_slots (CSlots r) = inr r).
+Proof. exact (fun l => conj (client_slots_placement l) (client_slots_again l)). Qed.
+Print Assumptions C19_client_slots_keep_placement.
+
+(* REFUTED for the one writer that does not leave a list: the hombre scheduler stores its
+   chunk dict {'ranks': [...], ..}; Task.slots indexes it with 0 (recorded finding) *)
+Theorem C19_client_slots_hombre_refuted : client_slots CRanksDict = inl KeyError.
+Proof. reflexivity. Qed.
+Print Assumptions C19_client_slots_hombre_refuted.
+
 (* ---------------------------------------------------------------- envelopes *)
 
 (* whatever the serialisers are, as long as deserialising a serialised value gives it
